@@ -86,8 +86,9 @@ func (h *H264Writer) Close() error {
 func isKeyFrame(data []byte) bool {
 	const (
 		typeSTAPA       = 24
-		typeSPS         = 7
+		typeFUA         = 28
 		naluTypeBitmask = 0x1F
+		fuStartBitmask  = 0x80
 	)
 
 	var word uint32
@@ -97,12 +98,51 @@ func isKeyFrame(data []byte) bool {
 		return false
 	}
 
-	naluType := (word >> 24) & naluTypeBitmask
-	if naluType == typeSTAPA && word&naluTypeBitmask == typeSPS {
-		return true
-	} else if naluType == typeSPS {
-		return true
+	switch naluType := (word >> 24) & naluTypeBitmask; naluType {
+	case typeSTAPA:
+		// any of the aggregated units may start the key frame
+		return checkSTAPAForKeyFrame(data)
+	case typeFUA:
+		// the type of the fragmented unit is in the FU header, and only its first fragment starts it
+		fuHeader := uint32(data[1])
+
+		return fuHeader&fuStartBitmask != 0 && isKeyFrameNalu(fuHeader&naluTypeBitmask)
+	default:
+		return isKeyFrameNalu(naluType)
+	}
+}
+
+func checkSTAPAForKeyFrame(data []byte) bool {
+	const (
+		stapaHeaderSize     = 1
+		stapaNALULengthSize = 2
+		naluTypeBitmask     = 0x1F
+	)
+
+	offset := stapaHeaderSize
+	for offset+stapaNALULengthSize <= len(data) {
+		naluSize := int(binary.BigEndian.Uint16(data[offset:]))
+		offset += stapaNALULengthSize
+
+		if offset+naluSize > len(data) {
+			break
+		}
+
+		if naluSize > 0 && isKeyFrameNalu(uint32(data[offset])&naluTypeBitmask) {
+			return true
+		}
+
+		offset += naluSize
 	}
 
 	return false
+}
+
+func isKeyFrameNalu(naluType uint32) bool {
+	const (
+		typeIDR = 5
+		typeSPS = 7
+	)
+
+	return naluType == typeSPS || naluType == typeIDR
 }
